@@ -28,6 +28,10 @@ application / hand a datagram to a protocol this model does not follow, put a re
 spawn a task (`Result.effects`); `Result.calls` lists the `demux` functions entered, in order.
 A panic of the dev profile is `.error "panic:…"`.
 
+`Ipv4::demux` takes the datagram to be the first `total length` octets of the frame (fix F-C14-S3:
+a shorter frame is dropped with `Header`, octets behind the datagram are link padding and are cut
+off before anything is handed up).
+
 Fixed by the path itself (so not modelled as a branch): `PciSession::receive` inserts
 `pci::DemuxInfo` into the control block before it calls anybody, hence `Ipv4::demux`'s
 `.ok_or(MissingContext)` on it and `Tcp::demux`'s `.unwrap()` on it cannot fail below a tap;
@@ -293,9 +297,14 @@ def ipv4Demux (env : Env) (m : Machine) (lk : Link) (bytes : Bytes) : Except Str
     -- let data_octets = header.total_length as u32 - header_octets  (checked subtraction)
     if h.totalLength < h.ihl * guardWord then .error "panic:sub-overflow:Ipv4::demux:data_octets" else
     if fragmentBeyondMax h then .ok (dropped m .header [pidIpv4]) else
+    -- fix F-C14-S3: the datagram is the first `total_length` octets of the frame.  A frame that ends
+    -- before that carries a datagram cut short in transit (`Err(Header)`); whatever follows the
+    -- datagram is link padding and is cut off (`message.slice(..header.total_length as usize)`)
+    if bytes.length < h.totalLength then .ok (dropped m .header [pidIpv4]) else
+    let dgram := bytes.take h.totalLength
     -- message.remove_front(header.ihl as usize * 4): assert!(len <= self.len)
-    if bytes.length < h.ihl * ipStripFactor then .error "panic:assert:Message::remove_front:Ipv4::demux" else
-    let body := bytes.drop (h.ihl * ipStripFactor)
+    if dgram.length < h.ihl * ipStripFactor then .error "panic:assert:Message::remove_front:Ipv4::demux" else
+    let body := dgram.drop (h.ihl * ipStripFactor)
     match ipv4Upstream m.dm h.destination (protoNumber h.protocol) with
     | none => .ok (dropped m .missingSession [pidIpv4])
     | some up =>
